@@ -196,7 +196,7 @@ EXPORT errno_t _ctime_s_chk(char *dest, rsize_t dmax, const time_t *timer,
     len = strlen(buf);
 
     if (likely(len < dmax)) {
-        strcpy_s(dest, dmax, buf);
+        _strcpy_s_chk(dest, dmax, buf, destbos);
     } else {
     esnospc:
         invoke_safe_str_constraint_handler("ctime_s: dmax is too small", dest,
